@@ -135,7 +135,7 @@ pub async fn transfer_file_to_remote(
     let mut child = tokio::process::Command::new("ssh")
         .arg(host)
         .arg(format!(
-            "cat > $'{tmp_escaped}' && mv -fT $'{tmp_escaped}' $'{escaped}'{touch}"
+            "cat > $'{tmp_escaped}' && test \"$(wc -c < $'{tmp_escaped}')\" -eq {file_size} && mv -fT $'{tmp_escaped}' $'{escaped}'{touch}"
         ))
         .stdin(std::process::Stdio::piped())
         .stdout(std::process::Stdio::null())
